@@ -39,7 +39,7 @@ PROPS = {
     "C02": {
         "level": "exploration",
         "cross_outcome": True,
-        "parts": [{"engine": "sched", "profile": "c02", "weight": 3}, {"engine": "integ", "profile": "c07", "weight": 1}],
+        "parts": [{"engine": "sched", "profile": "c02", "weight": 6}, {"engine": "integ", "profile": "c07", "weight": 2}, {"engine": "cli", "profile": "cli", "weight": 1}],
         "rule": "same worlds as C01; final status of every stage, executed set and Schedule error compared with a pure reference model per run, and final outcome vectors of the 4 schedules of one world compared with each other; INTEG part (C07 worlds, real TaskRunner): stage statuses, executed set and Schedule error == model. distinct = canonical event-log hash; non-trivial = >=2 tasks in flight together",
         "assumptions": _SCHED_ASSUME + ["a stage with a false condition below an un-allowed failure: both readings of the statement are accepted for its dependants (DESIGN 5/C02)"],
     },
